@@ -38,7 +38,7 @@ Proof.
     - exact Hret1.
     - unfold s2, poison_body. cbn [st_reg]. rewrite Esp. rewrite Z.eqb_refl. cbn [Z.eqb andb orb negb]. rewrite andb_false_r. reflexivity.
     - intros Hfp. unfold s2, poison_body. cbn [st_reg]. rewrite Esp, Efp, Hfp. cbn [Z.eqb Pos.eqb andb orb negb]. rewrite andb_false_r. reflexivity.
-    - intros g r Hd. unfold s2, poison_body. cbn [st_reg]. rewrite Hd. reflexivity.
+    - intros g r Hd _. unfold s2, poison_body. cbn [st_reg]. rewrite Hd. reflexivity.
     - intros x Hx. unfold s2, poison_body. cbn [st_mem]. rewrite Esp, Hsp1.
       unfold body_may_write in Hx. cbv zeta in Hx. rewrite Hs0sp in Hx.
       destruct (Z.ltb_spec x (x86_sp_body f sp0)); [exfalso; apply Hx; auto|].
@@ -81,7 +81,7 @@ Proof.
     - exact Hret1.
     - unfold s2, poison_body. cbn [st_reg sp_id fp_id]. cbn [Z.eqb Pos.eqb andb orb negb]. rewrite andb_false_r. reflexivity.
     - intros Hfp. unfold s2, poison_body. cbn [st_reg sp_id fp_id]. rewrite Hfp. cbn [Z.eqb Pos.eqb andb orb negb]. rewrite andb_false_r. reflexivity.
-    - intros g r Hd. unfold s2, poison_body. cbn [st_reg]. rewrite Hd. reflexivity.
+    - intros g r Hd _. unfold s2, poison_body. cbn [st_reg]. rewrite Hd. reflexivity.
     - intros x Hx. unfold s2, poison_body. cbn [st_mem sp_id]. rewrite Hsp1.
       unfold a64_may_write in Hx. cbv zeta in Hx. rewrite Hs0sp in Hx.
       destruct (Z.ltb_spec x (a64_sp_body f sp0)); [exfalso; apply Hx; auto|].
@@ -215,6 +215,61 @@ Proof.
     apply negb_true_iff. destruct (Z.eqb_spec g 0); destruct (Z.eqb_spec r (sp_id a)); cbn; auto. exfalso. apply Hne; auto.
 Qed.
 
+(* ------------------------------------------------------------------ round 6: completeness of the verdicts *)
+(* the converse of exec_frame_sound: whenever the scenario's round trip holds for the given lists, the verdict IS 0 - so verdict 0 is
+   EQUIVALENT to the round trip of the scenario (no false alarm, no missed failure, for any instruction lists) *)
+Lemma group_check_none a preserved srsize s0 s3 g :
+  (forall r, In r (bits_of 32 (qget preserved g)) -> ~ (g = 0 /\ r = sp_id a) ->
+     trunc (if g =? 0 then reg_size a else qget srsize g) (st_reg s3 g r) = trunc (if g =? 0 then reg_size a else qget srsize g) (st_reg s0 g r)) ->
+  group_check a preserved srsize s0 s3 g = None.
+Proof.
+  intros H. unfold group_check. apply first_bad_none. intros r Hin. apply filter_In in Hin. destruct Hin as [Hin Hf].
+  apply H; auto. intros [-> ->]. rewrite !Z.eqb_refl in Hf. discriminate.
+Qed.
+
+Theorem exec_frame_complete a pro epi sp0 ra dirty preserved srsize has_fp csize local_off lsize cleanup s1 s3 :
+  let s0 := init_state a sp0 ra in
+  run a pro s0 = Some s1 ->
+  run a epi (poison_body a s1 dirty has_fp csize local_off lsize) = Some s3 ->
+  st_ret s3 = Some ra -> st_reg s3 0 (sp_id a) = sp0 + ret_addr_size a + cleanup ->
+  (forall g r, 0 <= g <= 3 -> In r (bits_of 32 (qget preserved g)) -> ~ (g = 0 /\ r = sp_id a) ->
+     trunc (if g =? 0 then reg_size a else qget srsize g) (st_reg s3 g r) = trunc (if g =? 0 then reg_size a else qget srsize g) (st_reg s0 g r)) ->
+  exec_frame a pro epi sp0 ra dirty preserved srsize has_fp csize local_off lsize cleanup = (0, st_reg s1 0 (sp_id a)).
+Proof.
+  intros s0 H1 H3 Hr Hsp Hregs. unfold exec_frame. cbv beta zeta. fold s0. rewrite H1, H3, Hr, Z.eqb_refl. cbn [negb].
+  rewrite Hsp, Z.eqb_refl. cbn [negb].
+  fold (group_check a preserved srsize s0 s3 0). fold (group_check a preserved srsize s0 s3 1).
+  fold (group_check a preserved srsize s0 s3 2). fold (group_check a preserved srsize s0 s3 3).
+  rewrite !group_check_none; [reflexivity| | | |]; intros r Hin Hne; apply Hregs; auto; lia.
+Qed.
+
+Lemma first_misplaced_complete a s : forall args i,
+  (forall k spec, nth_error args k = Some spec -> arg_at_destination a s (i + Z.of_nat k) spec) -> first_misplaced a s args i = None.
+Proof.
+  induction args as [|[[[sk sv] dk] dv] rest IH]; intros i H; [reflexivity|]. cbn [first_misplaced].
+  pose proof (H 0%nat _ eq_refl) as H0. unfold arg_at_destination in H0. rewrite Z.add_0_r in H0.
+  assert (E : (if dk =? 0 then st_reg s 0 dv =? arg_value i
+               else match load_mem (st_mem s) (st_reg s 0 (sp_id a) + dv) (reg_size a) with Some v => v =? arg_value i | None => false end) = true).
+  { destruct (dk =? 0); [apply Z.eqb_eq; exact H0 | rewrite H0; apply Z.eqb_refl]. }
+  rewrite E. apply IH. intros k spec Hk. replace (i + 1 + Z.of_nat k) with (i + Z.of_nat (S k)) by lia. apply H. exact Hk.
+Qed.
+
+Theorem exec_args_frame_complete a pro asg epi sp0 ra args dirty preserved srsize has_fp csize local_off lsize cleanup s1 s1' s3 :
+  let s0 := init_state_args a sp0 ra args in
+  run a pro s0 = Some s1 -> run a asg s1 = Some s1' -> st_reg s1' 0 (sp_id a) = st_reg s1 0 (sp_id a) ->
+  (forall k spec, nth_error args k = Some spec -> arg_at_destination a s1' (Z.of_nat k) spec) ->
+  run a epi (poison_body a s1' dirty has_fp csize local_off lsize) = Some s3 ->
+  st_ret s3 = Some ra -> st_reg s3 0 (sp_id a) = sp0 + ret_addr_size a + cleanup ->
+  (forall g r, 0 <= g <= 3 -> In r (bits_of 32 (qget preserved g)) -> ~ (g = 0 /\ r = sp_id a) ->
+     trunc (if g =? 0 then reg_size a else qget srsize g) (st_reg s3 g r) = trunc (if g =? 0 then reg_size a else qget srsize g) (st_reg s0 g r)) ->
+  fst (exec_args_frame a pro asg epi sp0 ra args dirty preserved srsize has_fp csize local_off lsize cleanup) = 0.
+Proof.
+  intros s0 H1 H2 Hsp1 Hargs H3 Hr Hsp Hregs. unfold exec_args_frame. cbv beta zeta. fold s0. rewrite H1, H2, Hsp1, Z.eqb_refl. cbn [negb].
+  rewrite (first_misplaced_complete a s1' args 0) by (intros k spec Hk; rewrite Z.add_0_l; apply Hargs; exact Hk).
+  rewrite H3, Hr, Z.eqb_refl. cbn [negb]. rewrite Hsp, Z.eqb_refl. cbn [negb].
+  unfold preserved_check. rewrite !group_check_none; [reflexivity| | | |]; intros r Hin Hne; apply Hregs; auto; lia.
+Qed.
+
 (* non-vacuity: the premise "verdict 0" is reachable (the Win64 example frame, model lists), and the verdict discriminates: the same
    frame with the epilog's first instruction (the reload of xmm6) dropped gets verdict 132 + 6 (vector register 6 not restored) *)
 From Verif Require Import Frame.FrameExamples.
@@ -226,4 +281,18 @@ Definition ex_exec (epi : list instr) : Z :=
 
 Lemma ex_exec_frame_verdicts :
   ex_exec (x86_epilog ex_win64 (finalize ex_win64)) = 0 /\ ex_exec (tl (x86_epilog ex_win64 (finalize ex_win64))) = 138.
+Proof. split; vm_compute; reflexivity. Qed.
+
+(* non-vacuity for the argument-copy scenario: the Win64 example frame with one register argument (rcx) copied to rbx and one stack
+   argument copied into the local area by `mov rax, [rsp+sa]; mov [rsp+local], rax` gets verdict 0; without the first copy verdict 6 *)
+Definition ex_args_lists : list instr * list instr :=
+  let f := ex_win64 in let o := finalize f in
+  ([(Mmov, [gpr X64 3; gpr X64 1]); (Mmov, [gpr X64 0; OMem (fin_sa f) (fo_sa_from_sa o + 40) 0]); (Mmov, [OMem 4 (fo_local_off o) 0; gpr X64 0])],
+   [(Mmov, [gpr X64 0; OMem (fin_sa f) (fo_sa_from_sa o + 40) 0]); (Mmov, [OMem 4 (fo_local_off o) 0; gpr X64 0])]).
+Definition ex_exec_args (asg : list instr) : Z :=
+  let f := ex_win64 in let o := finalize f in
+  fst (exec_args_frame (fi_arch f) (x86_prolog f o) asg (x86_epilog f o) (2 ^ 40 - 8) 4242
+         [(0, 1, 0, 3); (1, 40, 1, fo_local_off o)] (fo_dirty o) (cc_preserved (fi_cc f)) (cc_srsize (fi_cc f))
+         (fi_has_fp f) (fi_call_size f) (fo_local_off o) (fi_local_size f) (fo_callee_cleanup o)).
+Lemma ex_exec_args_verdicts : ex_exec_args (fst ex_args_lists) = 0 /\ ex_exec_args (snd ex_args_lists) = 6.
 Proof. split; vm_compute; reflexivity. Qed.
